@@ -129,6 +129,8 @@ def canon(node):
     if isinstance(node, ast.AST):
         name = type(node).__name__
         low = name.lower()
+        if name in ("JoinedStr", "FormattedValue", "AnnAssign", "AsyncFunctionDef", "AsyncFor", "AsyncWith", "Await", "MatMult", "Constant"):
+            raise ValueError("fenced: post-3.4 node " + name)
         if name == "Num":
             n = node.n
             if isinstance(n, complex):
